@@ -91,6 +91,21 @@ def inject_faults(rng, rows, faults, adjust, ctx_faults=None):
                 i = rng.randrange(1, len(rows))   # never the first row: late_start is its own fault
                 del rows[i]
         applied.append("gap_days")
+    if "halt" in faults and len(rows) > 8:
+        # a trading halt: one or two contiguous stretches of 5..12 bars are missing (never the first row)
+        for _ in range(rng.choice([1, 1, 2])):
+            if len(rows) > 8:
+                srt = sorted(range(len(rows)), key=lambda i_: rows[i_][0])
+                k0 = rng.randrange(1, max(2, len(rows) - 5))
+                gone = set(srt[k0:k0 + rng.randrange(5, 13)])
+                rows[:] = [r_ for i_, r_ in enumerate(rows) if i_ not in gone]
+        applied.append("halt")
+    if "zero_bar" in faults and len(rows) > 2:
+        # a no-trade day written as a bar of zeros by the vendor (never the first row)
+        srt = sorted(range(len(rows)), key=lambda i_: rows[i_][0])
+        for i_ in rng.sample(srt[1:], min(len(srt) - 1, rng.choice([1, 1, 2]))):
+            rows[i_][1:7] = [0.0, 0.0, 0.0, 0.0, 0.0, 0]
+        applied.append("zero_bar")
     if "empty_cell" in faults and rows:
         n = rng.randrange(1, max(2, len(rows) // 5 + 1))
         for _ in range(n):
